@@ -30,6 +30,21 @@ x[[2,0,1]] <= c, x[[1,0]] >= c; scalar right-hand side) and models with two sepa
 lower-bound Bounds objects on disjoint entries, for all four objective directions, min and max: the objective entries
 have distinct magnitudes, so the reduced costs differ per entry and entry k of dual() is checked against the k-th entry
 of the slice as written (a sorted / permuted answer breaks stationarity).
+
+HISTORY dimension (ro.Model and rsome.lp.Model; dro.Model.st() returns no constraint objects): the model is not
+built-and-solved once but goes through
+    a  solve -> st(new row block and/or new Bounds) -> solve      b  do_math() -> st(new ...) -> solve
+    c  solve(other interface) -> solve                            d  do_math(primal=False) -> solve
+    aa (thorough) solve -> st -> solve -> st -> solve
+(a re-formulation of an ro.Model re-st()s every constraint with new `index` values; `ciarray` must follow).  After the
+LAST solve dual() of EVERY user constraint, old and new, goes through the full oracle above plus
+  * complementary slackness at the returned primal point (all cases of the module, not only this family);
+  * agreement with dual() of a FRESH build of the same final declarations solved once by the same interface, and
+  * shadow prices as derivatives: every right-hand side / bound value of the *spec* is perturbed along a fixed
+    direction, the LP is re-optimised by SciPy directly from the spec (no rsome), and the response of the optimum
+    (checked to be linear with steps eps and eps/2) must equal sum(dual * delta);
+the last two only where the optimal dual is unique: exactly n active constraints with independent gradients at the
+returned point and no other constraint within 1e-3 of active (measured per case, reported in the outcome).
 """
 import itertools
 import numpy as np
@@ -41,6 +56,9 @@ FLOOR = 0.5
 RULE = ('every LP of the grammar {front end} x {n<=3} x {sense mix of 1..B row blocks of 1-2 rows} x {block style} x '
         '{Bounds pattern} x {bounds/guard position} x {min,max} x {objective direction} x {default, ECOS, Gurobi}; '
         'plus {non-increasing slice / index-list Bounds, 2+2 separate Bounds objects} x {0-1 row blocks} x 4 directions; '
+        'plus the HISTORY family {a: solve-st-solve, b: do_math-st-solve, c: solve(other)-solve, d: do_math(dual)-solve} x '
+        '{new row block of 1-2 rows in every sense, new Bounds, both} x {15 initial row structures} x {4 initial Bounds '
+        'patterns} x {guard first/last}; '
         'every constraint object is asked dual() three times (twice forward, once in reverse order); '
         'a case is non-trivial when the solve is optimal, all identities were evaluated on all three answer sets, and at '
         'least one enumerated (non-guard) row or bound constraint carries a dual value of magnitude > 1e-6 (measured); the '
@@ -51,6 +69,9 @@ ASSUMPTIONS = [
     'objective has no constant term (the statement equates the dual objective with the optimum)',
     'each variable entry carries at most one upper and one lower Bounds constraint (as the statement requires)',
     'dro front end is out of scope: dro.Model.st() does not return constraint objects',
+    'history family: comparison with a fresh build and with finite differences of the optimum only at non-degenerate '
+    'vertices (unique optimal dual); the certificate identities and complementary slackness are checked always',
+    'SOCP models are not part of C14 (the statement is about continuous linear models): dual() is exercised on LPs only',
 ]
 TRUSTED = ['CPython', 'NumPy', 'the spec -> (G, h) orientation table in this module', 'kkt_check (60 lines)']
 
@@ -187,6 +208,12 @@ def _items(n, blocks, bpat, bpos, gpos, pal, style):
     return (guard + body) if gpos == 'first' else (body + guard) if gpos == 'last' else (guard[:1] + body + guard[1:])
 
 
+def _late_rows(bi, k, sense, n, pal):
+    """A row block declared after the first formulation (feasible at XSTAR like every other block)."""
+    A = _block(bi + 4, k, n, (pal + 1) % 4)
+    return ['row', A, sense, _rhs(A, sense, n, 0.25), 'mat']
+
+
 def gen_cases(tier, seed):
     thorough = tier == 'thorough'
     pals = [0, 1, 2, 3] if thorough else [seed % 4]
@@ -202,7 +229,7 @@ def gen_cases(tier, seed):
                     elif B == 2:
                         ksets = [(1, 1), (2, 1), (1, 2), (2, 2)] if thorough else [(1, 1), (2, 1), (1, 2)]
                     else:
-                        ksets = [(1, 1, 1), (2, 1, 1)]
+                        ksets = [(1, 1, 1)]
                     for ks in ksets:
                         block_cfgs.append(list(zip(ks, senses)))
             for blocks in block_cfgs:
@@ -254,6 +281,47 @@ def gen_cases(tier, seed):
                                         yield {'fe': fe, 'n': n, 'items': items, 'dir': d, 'c': c, 'iface': iface,
                                                'tag': '%s|%s|%s|%s' % ('+'.join('%d%s' % b for b in blocks) or '0', pname, bpos, gpos),
                                                'style': style}
+    # HISTORY dimension: the certificate (and the agreement with a fresh build) after the LAST solve of
+    #   a  solve -> st(new rows and/or bound) -> solve        b  do_math() -> st(new ...) -> solve
+    #   c  solve(other interface) -> solve                    d  do_math(primal=False) -> solve
+    #   aa (thorough) solve -> st -> solve -> st -> solve
+    HB = {'none': ('U', None, 1.5), 'L': ('U', None, 1.5), 'sL': ('L', [1, None], -1.0), 'L+sU': ('U', [1, None], 1.25)}
+    for pal in pals:
+        for n in (2, 3):
+            cfgs = [[(k, sn)] for sn in SENSES for k in (1, 2)] + [[(2, a), (1, b)] for a in SENSES for b in SENSES]
+            if thorough:
+                cfgs += [[(1, a), (2, b)] for a in SENSES for b in SENSES]
+            for ci, blocks in enumerate(cfgs):
+                for pi_, bpat in enumerate(HB):
+                    kind, idx, val = HB[bpat]
+                    lateb = ['bnd', kind, None if idx is None else [idx[0], n], val]
+                    lates = [[_late_rows(len(blocks), k, sn, n, pal)] for sn in SENSES for k in (1, 2)]
+                    lates += [[lateb], [_late_rows(len(blocks), 2, '<=', n, pal), lateb]]
+                    sub = [lates[0], lates[6], lates[7]]
+                    plan = []       # (front end, guard position, history, late groups, earlier interface)
+                    plan += [('ro', g, 'a', [l], None) for g in ('last', 'first') for l in lates]
+                    plan += [('ro', 'last', 'b', [l], None) for l in lates]
+                    plan += [('ro', 'last', 'c', [], p) for p in IFACES] + [('ro', 'last', 'd', [], None)]
+                    plan += [('lp', 'last', h, [l], None) for h in ('a', 'b') for l in sub]
+                    plan += [('lp', 'last', 'c', [], p) for p in IFACES] + [('lp', 'last', 'd', [], None)]
+                    if thorough:
+                        plan += [(fe, g, 'aa', grp, None) for fe in ('ro', 'lp') for g in ('last', 'first')
+                                 for grp in ([lates[0], [lateb]], [[lateb], lates[3]], [lates[4], lates[1]])]
+                        plan += [('ro', 'first', 'b', [l], None) for l in lates]
+                    for hi, (fe, gpos, hist, late, pre) in enumerate(plan):
+                        rot = ci + pi_ + hi      # objective direction rotates with the position in the grammar
+                        for c in [OBJ[n][rot % 4]]:
+                            for d in ('min', 'max'):
+                                for iface in IFACES:
+                                    if pre == iface:
+                                        continue
+                                    bpos = 'mid' if len(blocks) > 1 else 'last'
+                                    case = {'fe': fe, 'n': n, 'items': _items(n, blocks, bpat, bpos, gpos, pal, 'mat'),
+                                            'late': late, 'hist': hist, 'dir': d, 'c': c, 'iface': iface, 'style': 'mat',
+                                            'tag': '%s|%s|%s|%s' % ('+'.join('%d%s' % b for b in blocks), bpat, bpos, gpos)}
+                                    if pre:
+                                        case['pre'] = pre
+                                    yield case
     if thorough:
         # history variant: the model is first solved by another interface, dual() must describe the last solve
         for pal in pals:
@@ -277,7 +345,7 @@ def bounds(tier):
     return {'n_max': 3, 'row_blocks_max': 3 if th else 2, 'rows_per_block': [1, 2], 'bounds_patterns': len(BPATS),
             'palettes': 4 if th else 1, 'objective_directions_per_palette': 2,
             'interfaces': IFACES, 'front_ends': ['ro', 'lp'], 'history_variant': th,
-            'dual_calls_per_object': 3, 'non_increasing_slice_patterns': sorted(set(_perm_patterns(2)) | set(_perm_patterns(3)))}
+            'dual_calls_per_object': 3, 'histories': ['a', 'b', 'c', 'd'] + (['aa'] if th else []), 'non_increasing_slice_patterns': sorted(set(_perm_patterns(2)) | set(_perm_patterns(3)))}
 
 
 def exhaustive(tier):
@@ -295,50 +363,121 @@ def worker_init():
     _rs.update(rso=rso, ro=ro, lp=lp, prog=prog, solvers={'def': None, 'eco': eco_solver, 'grb': grb_solver})
 
 
-def _build(case):
+def _constr(x, it, style):
+    """One spec item -> rsome constraint object (not yet handed to st)."""
+    if it[0] == 'row':
+        _, A, s, b, st = it
+        A = np.array(A, dtype=float)
+        b = np.array(b, dtype=float)
+        if st == 'guard':
+            lhs, rhs = 1.0 * x, b                       # rows, not Bounds objects
+        elif style == 'expr':
+            lhs, rhs = A @ x - b, 0.0                   # constant on the left: A x - b <= 0
+        elif style == 'refl':
+            lhs, rhs = None, None
+        else:
+            lhs, rhs = A @ x, b
+        if lhs is None:                                 # reflected: b >= A x  is the user's  A x <= b
+            e = A @ x
+            return (b >= e) if s == '<=' else (b <= e) if s == '>=' else (e == b)
+        return (lhs <= rhs) if s == '<=' else (lhs >= rhs) if s == '>=' else (lhs == rhs)
+    _, kind, idx, val = it
+    if idx is None:
+        t = x
+    elif idx[0] == 's':
+        t = x[slice(idx[1], idx[2], idx[3])]
+    elif idx[0] == 'l':
+        t = x[[int(i) for i in idx[1:]]]
+    else:
+        t = x[idx[0]:idx[1]]
+    v = np.array(val, dtype=float) if isinstance(val, list) else float(val)
+    if isinstance(val, list) and idx is not None:
+        # a slice compared with an array is a LinConstr in rsome, not a Bounds object: keep numbers scalar there
+        raise ValueError('array-valued slice bounds are not part of the grammar')
+    return (t <= v) if kind == 'U' else (t >= v)
+
+
+def _build(case, items=None):
     """-> model, x, list of (item, constraint object returned by st)."""
     n = case['n']
     m = _rs['ro'].Model() if case['fe'] == 'ro' else _rs['lp'].Model()
     x = m.dvar(n)
     style = case.get('style', 'mat')
     out = []
-    for it in case['items']:
-        if it[0] == 'row':
-            _, A, s, b, st = it
-            A = np.array(A, dtype=float)
-            b = np.array(b, dtype=float)
-            if st == 'guard':
-                lhs, rhs = 1.0 * x, b                       # rows, not Bounds objects
-            elif style == 'expr':
-                lhs, rhs = A @ x - b, 0.0                   # constant on the left: A x - b <= 0
-            elif style == 'refl':
-                lhs, rhs = None, None
-            else:
-                lhs, rhs = A @ x, b
-            if lhs is None:                                 # reflected: b >= A x  is the user's  A x <= b
-                e = A @ x
-                c = (b >= e) if s == '<=' else (b <= e) if s == '>=' else (e == b)
-            else:
-                c = (lhs <= rhs) if s == '<=' else (lhs >= rhs) if s == '>=' else (lhs == rhs)
-        else:
-            _, kind, idx, val = it
-            if idx is None:
-                t = x
-            elif idx[0] == 's':
-                t = x[slice(idx[1], idx[2], idx[3])]
-            elif idx[0] == 'l':
-                t = x[[int(i) for i in idx[1:]]]
-            else:
-                t = x[idx[0]:idx[1]]
-            v = np.array(val, dtype=float) if isinstance(val, list) else float(val)
-            if isinstance(val, list) and idx is not None:
-                # a slice compared with an array is a LinConstr in rsome, not a Bounds object: keep numbers scalar there
-                raise ValueError('array-valued slice bounds are not part of the grammar')
-            c = (t <= v) if kind == 'U' else (t >= v)
-        out.append((it, m.st(c)))
+    for it in (case['items'] if items is None else items):
+        out.append((it, m.st(_constr(x, it, style))))
     cvec = np.array(case['c'], dtype=float)
     (m.min if case['dir'] == 'min' else m.max)(cvec @ x)
     return m, x, out
+
+
+def _spec_lp(items, n):
+    """The user's LP straight from the spec: (A_ub, b_ub, A_eq, b_eq, lb, ub) with, per item, the positions of its
+    entries (used by the perturbation oracle and the degeneracy test).  >= rows are stored negated (<= orientation)."""
+    Au, bu, Ae, be = [], [], [], []
+    lb = np.full(n, -np.inf)
+    ub = np.full(n, np.inf)
+    where = []
+    for it in items:
+        if it[0] == 'row':
+            _, A, s, b, st = it
+            G = np.array(A, dtype=float)
+            h = np.array(b, dtype=float)
+            if s == '>=':
+                G, h = -G, -h
+            if s == '==':
+                where.append(('eq', list(range(len(be), len(be) + len(h)))))
+                Ae += list(G)
+                be += list(h)
+            else:
+                where.append(('ub', list(range(len(bu), len(bu) + len(h)))))
+                Au += list(G)
+                bu += list(h)
+        else:
+            _, kind, idx, val = it
+            ids = _ids(idx, n)
+            vals = np.array(val, dtype=float).reshape(-1) if isinstance(val, list) else np.full(len(ids), float(val))
+            where.append((kind, ids))
+            for i, v in zip(ids, vals):
+                if kind == 'U':
+                    ub[i] = min(ub[i], v)
+                else:
+                    lb[i] = max(lb[i], v)
+    return (np.array(Au).reshape(-1, n), np.array(bu), np.array(Ae).reshape(-1, n), np.array(be), lb, ub, where)
+
+
+def _ref_opt(c, sign, Au, bu, Ae, be, lb, ub):
+    """Optimal objective of the user's LP (user's sense) by SciPy-HiGHS, None unless optimal."""
+    import scipy.optimize as opt
+    res = opt.linprog(sign * np.asarray(c, dtype=float), A_ub=Au if len(bu) else None, b_ub=bu if len(bu) else None,
+                      A_eq=Ae if len(be) else None, b_eq=be if len(be) else None, bounds=list(zip(lb, ub)), method='highs')
+    return sign * float(res.fun) if res.status == 0 else None
+
+
+def _nondegenerate(xv, Au, bu, Ae, be, lb, ub, n, tol=1e-6, margin=1e-3):
+    """True iff exactly n constraints are active at xv, their gradients are independent, and no other constraint is
+    within `margin` of active: then the optimal dual is unique (and stays valid for small right-hand-side changes)."""
+    grads = [g for g in Ae]
+    near = 0
+    for g, h in zip(Au, bu):
+        sl = h - g @ xv
+        if sl <= tol:
+            grads.append(g)
+        elif sl <= margin:
+            near += 1
+    for j in range(n):
+        for bound, sgn in ((lb[j], -1.0), (ub[j], 1.0)):
+            if np.isfinite(bound):
+                sl = sgn * (bound - xv[j])
+                if sl <= tol:
+                    e = np.zeros(n)
+                    e[j] = sgn
+                    grads.append(e)
+                elif sl <= margin:
+                    near += 1
+    if near or len(grads) != n:
+        return False
+    return np.linalg.matrix_rank(np.array(grads), tol=1e-9) == n
 
 
 def run_case(case):
@@ -346,17 +485,36 @@ def run_case(case):
     lp = _rs['lp']
     n = case['n']
     iface = case['iface']
-    tag = '%s|%s|%s|n%d|%s|%s' % (case['fe'], case['tag'], case['style'], n, case['dir'], iface)
+    hist = case.get('hist')
     m, x, pairs = _build(case)
     nops = 3 + 2 * len(pairs)
-    if case.get('pre'):
-        m.solve(_rs['solvers'][case['pre']], display=False)
-        nops += 1
-        tag += '|after:' + case['pre']
+    style = case.get('style', 'mat')
+
+    def stage(solver_name):
+        m.solve(_rs['solvers'][solver_name], display=False)
+
     try:
-        m.solve(_rs['solvers'][iface], display=False)
+        if case.get('pre'):                     # (c) solve -> solve(other solver)
+            stage(case['pre'])
+            nops += 1
+        if hist in ('a', 'aa'):                 # (a) solve -> st(new) -> solve   (aa: twice)
+            for group in case['late']:
+                stage(iface)
+                for it in group:
+                    pairs.append((it, m.st(_constr(x, it, style))))
+                nops += 1 + 2 * len(group)
+        elif hist == 'b':                       # (b) do_math() -> st(new) -> solve
+            m.do_math()
+            for it in case['late'][0]:
+                pairs.append((it, m.st(_constr(x, it, style))))
+            nops += 1 + 2 * len(case['late'][0])
+        elif hist == 'd':                       # (d) do_math(primal=False) -> solve
+            m.do_math(primal=False)
+            nops += 1
+        stage(iface)
     except Exception as ex:  # noqa  (conditional statement: no optimum -> vacuous)
-        return {'status': 'vacuous', 'outcome': 'solve raised %s' % type(ex).__name__, 'ops': nops}
+        return {'status': 'vacuous', 'outcome': 'solve raised %s' % type(ex).__name__, 'ops': nops,
+                'detail': str(ex)[:200]}
     nops += 1
     sol = m.solution
     if sol is None or sol.x is None or np.isnan(sol.objval):
@@ -430,6 +588,77 @@ def run_case(case):
                     'detail': ('answers of the %s round: ' % ('first', 'second', 'reverse-order')[rnd]) +
                               '; '.join('%s: %s' % b for b in bad)[:800] + ' | x=%s obj=%s' % (
                         np.round(np.asarray(x.get()), 6).tolist(), objval)}
+    # complementary slackness at the returned primal point (necessary for any optimal primal/dual pair)
+    xv = np.asarray(x.get(), dtype=float).reshape(-1)
+    cstol = 10 * tol * (1.0 + abs(objval) + max([float(np.abs(r[3]).max()) for r in rows] + [0.0]))
+    for bi, (G, h, is_eq, y) in enumerate(rows):
+        if not is_eq:
+            prod = np.abs(y) * np.maximum(h - G @ xv, 0.0)
+            if prod.max() > cstol:
+                return {'status': 'violation', 'sig': _sig(case, 'compl-slackness'), 'ops': nops,
+                        'detail': 'row block %d: dual %s on slacks %s at x=%s' % (bi, y.tolist(), (h - G @ xv).tolist(), xv.tolist())}
+    for bi, (kind, ids, vals, dv) in enumerate(bnds):
+        sl = (vals - xv[ids]) if kind == 'U' else (xv[ids] - vals)
+        if (np.abs(dv) * np.maximum(sl, 0.0)).max() > cstol:
+            return {'status': 'violation', 'sig': _sig(case, 'compl-slackness'), 'ops': nops,
+                    'detail': '%s-bound block %d: dual %s on slacks %s at x=%s' % (kind, bi, dv.tolist(), sl.tolist(), xv.tolist())}
+    hnote = ''
+    if hist:
+        # ---- the same final declarations built fresh and solved once; unique dual (non-degenerate vertex) => equal
+        final_items = [it for it, _ in pairs]
+        Au, bu, Ae, be, lbv, ubv, where = _spec_lp(final_items, n)
+        unique = _nondegenerate(xv, Au, bu, Ae, be, lbv, ubv, n)
+        hnote = ', degenerate vertex: fresh-build / perturbation comparison skipped'
+        if unique:
+            try:
+                m2, x2, pairs2 = _build(case, items=final_items)
+                m2.solve(_rs['solvers'][iface], display=False)
+                fresh = [np.asarray(c2.dual(), dtype=float).reshape(-1) for _, c2 in pairs2]
+            except Exception as ex:  # noqa
+                fresh = None
+                hnote = ', fresh build failed (%s)' % type(ex).__name__
+            nops += len(pairs) * 3 + 2
+            if fresh is not None:
+                for j, (it, _) in enumerate(pairs):
+                    mine = np.asarray(answers[j][2], dtype=float).reshape(-1)
+                    if mine.shape != fresh[j].shape or np.abs(mine - fresh[j]).max() > 100 * tol * (1 + np.abs(fresh[j]).max()):
+                        return {'status': 'violation', 'sig': _sig(case, 'differs-from-fresh-build'), 'ops': nops,
+                                'detail': 'constraint #%d (%s): after the history %s, fresh build of the same declarations %s'
+                                          % (j, it[0], mine.tolist(), fresh[j].tolist())}
+                # ---- shadow prices as derivatives: perturb every right-hand side / bound value of the *spec* and
+                # re-optimise with SciPy; linear response (checked with eps and eps/2) must equal sum(dual * delta)
+                base = _ref_opt(case['c'], sign, Au, bu, Ae, be, lbv, ubv)
+                pat = [1.0, -0.5, 0.75, -1.0, 0.5, -0.25, 0.25]
+                resp = []
+                pred = 0.0
+                for eps in (1e-4, 5e-5):
+                    bu2, be2, lb2, ub2 = bu.copy(), be.copy(), lbv.copy(), ubv.copy()
+                    k = 0
+                    pred = 0.0
+                    for j, (wk, pos) in enumerate(where):
+                        dj = np.asarray(answers[j][2], dtype=float).reshape(-1)
+                        for t, p in enumerate(pos):
+                            dl = pat[k % len(pat)]
+                            k += 1
+                            if wk == 'ub':
+                                bu2[p] += eps * dl
+                            elif wk == 'eq':
+                                be2[p] += eps * dl
+                            elif wk == 'U':
+                                ub2[p] += eps * dl
+                            else:
+                                lb2[p] += eps * dl
+                            pred += dj[t] * dl
+                    v = _ref_opt(case['c'], sign, Au, bu2, Ae, be2, lb2, ub2)
+                    resp.append(None if (v is None or base is None) else (v - base) / eps)
+                if None not in resp and abs(resp[0] - resp[1]) <= 1e-4 * (1 + abs(resp[0])):
+                    if abs(resp[1] - pred) > 1e-3 * (1 + abs(pred)):
+                        return {'status': 'violation', 'sig': _sig(case, 'perturbation'), 'ops': nops,
+                                'detail': 'd(optimum)/d(rhs) along the test direction: reference %.8g, sum(dual*delta) %.8g'
+                                          % (resp[1], pred)}
+                    hnote = ', = fresh build, = finite difference of the optimum'
+                else:
+                    hnote = ', = fresh build (response not linear at this step: finite difference skipped)'
     what = {(0, 0): 'guard rows only', (1, 0): 'enumerated rows priced', (0, 1): 'Bounds priced',
             (1, 1): 'rows and Bounds priced'}[(int(nz_user), int(nz_b))]
     nup = sum(1 for it, _ in pairs if it[0] == 'bnd' and it[1] == 'U')
@@ -439,6 +668,10 @@ def run_case(case):
         extra += ', distinct duals on a non-increasing slice'
     if nup >= 2 and nlo >= 2:
         extra += ', 2+2 Bounds objects'
+    if hist:
+        return {'status': 'pass', 'outcome': 'history %s: certificate ok x3 answer sets (%s%s)' % (
+            hist if not case.get('pre') else 'c', what, hnote), 'nontrivial': bool(nz_user or nz_b), 'ops': nops,
+            'validated': 1, 'states': 4 + len(case.get('late', [])), 'transitions': 3 * len(pairs) + 3}
     return {'status': 'pass', 'outcome': 'certificate ok x3 answer sets (%s%s)' % (what, extra),
             'nontrivial': bool(nz_user or nz_b), 'ops': nops, 'validated': 1, 'states': 3, 'transitions': 3 * len(pairs)}
 
@@ -454,6 +687,8 @@ def _sig(case, what):
     blocks, bpat = case['tag'].split('|')[:2]
     senses = '+'.join(b.lstrip('0123456789') for b in blocks.split('+'))
     s = '%s|%s|senses:%s|bounds:%s|%s|%s|%s' % (case['fe'], case['style'], senses, bpat, case['dir'], case['iface'], what)
+    if case.get('hist'):
+        s += '|history:' + case['hist']
     if case.get('pre'):
         s += '|after:' + case['pre']
     return s
